@@ -85,7 +85,7 @@ class FakeGeneration:
         return json.dumps(symbolic.term('loaded', offset + 1)).encode()
 
 
-def build_segment(nodes, sf, rnd=None):
+def build_segment(nodes, sf, rnd=None, flaky=None):
     """Build real workers for the abstract `nodes` ([{szin, szout, grp, trained, ins}], 1-based ids, node 1 = source).
     Wiring calls are issued in a seeded random order (the compiler's visit order follows subscription order)."""
     from forml import flow
@@ -98,7 +98,11 @@ def build_segment(nodes, sf, rnd=None):
             real.append(first[g].fork())
             continue
         cls = symbolic.Source if n['szin'] == 0 else symbolic.Stateful if sf[g - 1] else symbolic.Stateless
-        node = flow.Worker(cls.builder(str(g), n['szout']), n['szin'], n['szout'])
+        if flaky and flaky[0] == g:      # (group, marker file): that (stateless) actor fails on its first application
+            builder = symbolic.FlakyOnce.builder(str(g), n['szout'], marker=flaky[1])
+        else:
+            builder = cls.builder(str(g), n['szout'])
+        node = flow.Worker(builder, n['szin'], n['szout'])
         first[g] = node
         real.append(node)
     calls = []
@@ -123,6 +127,28 @@ def pick_tail(nodes):
         if not n['trained'] and i not in fed and n['szout'] == 1:
             return i
     return None
+
+
+def run_with_fault(nodes, sf, pers, group, marker, rnd=None):
+    """Compile the segment whose actor `group` fails with an I/O error on its first application and execute the table once.
+    Returns (exception class name or None, number of further applications of that actor, commits)."""
+    import os
+
+    from forml import flow
+    from forml.io import asset
+    from harness import refinterp
+    real, gids = build_segment(nodes, sf, rnd, flaky=(group, marker))
+    segment = flow.Segment(real[0], real[pick_tail(nodes) - 1])
+    gen = FakeGeneration()
+    assets = asset.State(gen, [gids[g] for g in pers], asset.Tag()) if pers else None
+    symbols = flow.compile(segment, assets)
+    try:
+        refinterp.run(symbols)
+        raised = None
+    except Exception as exc:  # pylint: disable=broad-except
+        raised = type(exc).__name__
+    again = os.path.getsize(marker) if os.path.exists(marker) else -1
+    return raised, again, len(gen.commits)
 
 
 def compile_and_run(nodes, sf, pers, rnd=None, mutate=None):
